@@ -489,9 +489,32 @@ class Shim(object):
 
     logpath = None
 
+    def open_fds(self):
+        """descriptors open in this process that refer to something inside
+        the sandbox (the resource monitor: whatever the command opened there
+        must be closed again when it ends)"""
+        out = []
+        prev = self.inside
+        self.inside = True
+        try:
+            for name in _O['listdir']('/proc/self/fd'):
+                try:
+                    tgt = _O['readlink']('/proc/self/fd/' + name)
+                except OSError:
+                    continue
+                if self._under(tgt, self.root) and int(name) != self.logfd:
+                    out.append(tgt)
+        except OSError:
+            pass
+        finally:
+            self.inside = prev
+        return out
+
     def finish(self):
+        leaked = self.open_fds()
         self.log_json('S', {'audit': self.audit, 'wrapped': self.wrapped,
-                            'events': self.k})
+                            'events': self.k, 'open_fds': len(leaked),
+                            'open_fd_sample': leaked[:4]})
 
 
 # ------------------------------------------------------------------ install
